@@ -3,6 +3,7 @@ CONSTANTS
   MaxEvents = 4
   Shapes <- MC_ShapesQuick
   FullPermBins = 4
+  MaxCalls = 1
   Bug = "none"
 INVARIANT LayoutWellFormed
 INVARIANT ResultPerEvent
@@ -11,3 +12,4 @@ INVARIANT OrderPreserved
 INVARIANT WeightsUntouched
 INVARIANT EdgesSameFunction
 INVARIANT InputUntouched
+INVARIANT Repeatable
